@@ -24,6 +24,11 @@ CLAIMED = {
          "All sequences over {failure, success, ask, advance <timeout, >timeout, >probe window} up to length 6 (quick) / 8 (thorough) are run against the three real breakers (health, olla engine, unifier with several configurations) and compared, ask by ask, with a reference automaton written from the statement that yields the set of allowed answers; every sequence ends with a recovery suffix (works again => closes, count cleared, trips again at threshold); longer sequences are rapid-generated; G concurrent callers race on a timed-out breaker and admissions are counted against the stated limits.",
          "Time is simulated by rewinding stored timestamps through build-tag-guarded overlay hooks (exact for 'now - stored > timeout' code); where the statement is silent both answers are accepted; the concurrent part explores only the schedules the Go scheduler happens to produce.",
          "DESIGN.md §3 C08"),
+ "C11": ("exploration",
+         "enumeration of prefix x deployment tables + rapid-generated deployments through the full stack; typed recording backends; YAML-derived reference compatibility relation",
+         "Every routing prefix declared by the shipped YAML profiles (read by the harness's own YAML reader) is exercised on both engines against deployments built from every shipped endpoint type plus auto and documented alias spellings, with health subsets: all size-1 and size-2 deployments are enumerated (quick: a third of the pair table per run), size-3 deployments and provider-native paths are rapid-generated; the backend that receives the request must have a type in the reference relation Compatible(prefix), offline endpoints receive nothing, and with no healthy compatible endpoint the client gets a non-2xx and no backend is contacted. Model listings under each prefix must only show models of healthy compatible endpoints.",
+         "Compatibility relation is derived from the property text and the YAML (profile owning the prefix; openai_compatible flag for the openai prefixes; auto matches all).",
+         "DESIGN.md §3 C11"),
  "C12": ("exploration",
          "grammar-driven rapid generation of Anthropic requests; independent conversation-trace extractor on both sides (exact-number JSON equality); invalid-request generator; same oracle through the full handler",
          "Valid requests from the Messages grammar (string/block content in any order incl. tool_result-first user turns, system forms, 0..5 tools, every tool_choice form, nested inputs with big integers/escapes/unicode, unknown block fields) are translated with the exported TransformRequest and, for a subset, through the full HTTP stack into a recording backend; an independent extractor reduces both the Anthropic and the OpenAI side to a canonical trace (scalars, system first, turn order, tool calls with exactly-compared arguments, linked tool results, tool definitions, tool_choice table) and compares. Invalid requests (25 defect kinds) must be rejected: 400, Anthropic error object, nothing upstream.",
